@@ -292,11 +292,34 @@ Proof.
   eexists. split; [vm_compute; reflexivity|]. split; vm_compute; [reflexivity|discriminate].
 Qed.
 
-(* Fibonacci counts over 36 symbols: pure Huffman depth above MAX_CLEN = 32 *)
+(* Fibonacci counts over 36 symbols: pure Huffman depth 36.  With MAX_CLEN = 32
+   this was JERR_HUFF_CLEN_OVERFLOW; with MAX_CLEN = 64 a table limited to 16 bits *)
 Example gen_table_deep_boundary :
-  hyps (fibs 36 1 2) /\ gen_optimal_table (fibs 36 1 2) = inl ClenOverflow.
+  hyps (fibs 36 1 2) /\
+  (exists nz cs, gen_codesizes (fibs 36 1 2) = inr (nz, cs) /\ In 36 cs) /\
+  exists t, gen_optimal_table (fibs 36 1 2) = inr t /\
+            h_bits t = [0; 1; 1; 1; 1; 1; 1; 1; 1; 1; 1; 1; 0; 0; 2; 0; 23] /\
+            valid_table t = true.
 Proof.
   split; [split; [apply all_nonneg; vm_compute; reflexivity|split; vm_compute; [discriminate|]]|].
   - repeat constructor.
-  - vm_compute. reflexivity.
+  - split.
+    + eexists. eexists. split; [vm_compute; reflexivity|]. cbn. tauto.
+    + eexists. split; [vm_compute; reflexivity|]. split; vm_compute; reflexivity.
+Qed.
+
+(* the deepest Fibonacci histogram below the 10^9 limit: 41 symbols, total
+   701408731 + 1 <= SENT, pure code length 41 <= MAX_CLEN = 64 *)
+Example gen_table_deepest_admissible :
+  hyps (fibs 41 1 2) /\ sumZ (fibs 41 1 2) = 701408731 /\ ~ hyps (fibs 42 1 2) /\
+  (exists nz cs, gen_codesizes (fibs 41 1 2) = inr (nz, cs) /\ In 41 cs) /\
+  exists t, gen_optimal_table (fibs 41 1 2) = inr t /\ valid_table t = true.
+Proof.
+  split; [split; [apply all_nonneg; vm_compute; reflexivity|split; vm_compute; [discriminate|]]|].
+  - repeat constructor.
+  - split; [vm_compute; reflexivity|]. split.
+    + intros (_ & H & _). vm_compute in H. apply H. reflexivity.
+    + split.
+      * eexists. eexists. split; [vm_compute; reflexivity|]. cbn. tauto.
+      * eexists. split; [vm_compute; reflexivity|vm_compute; reflexivity].
 Qed.
